@@ -26,7 +26,7 @@ PLANS = {
             ("A", "ec_default", 0, 2), ("A", "rsa_large", 1, 8),
             ("A", "ecdsa_large", 1, 8)],
     "C13": [("C", "driver", 6000, 200000), ("C", "e2e", 120, 2500),
-            ("C", "faultsweep", 400, 8000)],
+            ("C", "faultsweep", 400, 8000), ("C", "calib", 60, 900)],
     "C10": [("B", "tiny", 1500, 40000), ("B", "named", 500, 12000),
             ("A", "ec", 40, 700), ("A", "ec_big", 4, 60),
             ("A", "ec_default", 0, 2)],
